@@ -16,6 +16,20 @@ STRUCTS = {
     "P8": [("a", 4), ("b", 4)],
     "Q3": [("x", 1), ("y", 2)],
     "N10": [("p", "P8"), ("c", 2)],
+    # structs with list fields.  A list field is described by one pseudo-field per element, named as the
+    # element is written in PyMTL ("m[1][0]"), in packed order: first field most significant and, inside a list
+    # field, element 0 LEAST significant (C06), i.e. the elements appear last-index-first.  LA and LB have the
+    # same field names and the same outer length; they differ in the inner dimension and LA is declared first
+    # (seeded change C07-C: generated <<= / flip functions cached by field names and outer lengths).
+    "LA": [("hd", 2), ("m[1][0]", 2), ("m[0][0]", 2)],
+    "LB": [("hd", 2), ("m[1][1]", 1), ("m[1][0]", 1), ("m[0][1]", 1), ("m[0][0]", 1)],
+    "L6": [("t", 2), ("v[1]", 2), ("v[0]", 2)],
+}
+# declaration text of the structs whose pseudo-fields stand for list elements
+STRUCT_DECL = {
+    "LA": [("hd", "Bits2"), ("m", "[ [ Bits2 ] * 1 ] * 2")],
+    "LB": [("hd", "Bits2"), ("m", "[ [ Bits1 ] * 2 ] * 2")],
+    "L6": [("t", "Bits2"), ("v", "[ Bits2 ] * 2")],
 }
 
 
@@ -301,15 +315,34 @@ class Design:
             return "reduce_%s(%s)" % (e["op"], P(e["a"]))
         raise KeyError(k)
 
+    def py_rhs(d, e, host, leaf_bits, sliced):
+        """RHS of an assignment.  A literal assigned to a Bits leaf is written in one of the three forms the
+        assignment operators accept for the same value (chosen by the value, so the text is a function of
+        the descriptor): BitsN(v), the Python int v, or - for a value with its top bit set, on an unsliced
+        target - the negative int v - 2^w (`s.cnt <<= -1` stores all ones; PythonBits __imatmul__ /
+        __ilshift__ accept -2^(w-1) <= v < 2^w and store v mod 2^w).  The specification sees the value v."""
+        if e["k"] == "lit" and leaf_bits and e["w"] >= 1:
+            v, w = e["v"], e["w"]
+            form = (v + w) % 3
+            if form == 1:
+                return "%d" % v
+            if form == 2:
+                return "%d" % (v - (1 << w)) if (not sliced and v >= (1 << (w - 1))) else "%d" % v
+        return d.py_expr(e, host)
+
     def py_stmts(d, stmts, host, op, ind):
         out = []
         for x in stmts:
             if x["k"] == "as":
-                out.append("%s%s %s %s" % (ind, x["t"].rel(host), op, d.py_expr(x["e"], host)))
+                t = x["t"]
+                out.append("%s%s %s %s" % (ind, t.rel(host), op,
+                                           d.py_rhs(x["e"], host, isinstance(t.leafty, int) and t.leafty == x["e"].get("w"),
+                                                    t.sl is not None)))
             elif x["k"] == "asi":
                 a0 = x["arr"][0]
                 base = ".".join(("s",) + a0.comp[len(host):] + (a0.arr[0],))
-                out.append("%s%s[%s] %s %s" % (ind, base, d.py_expr(x["i"], host), op, d.py_expr(x["e"], host)))
+                out.append("%s%s[%s] %s %s" % (ind, base, d.py_expr(x["i"], host), op,
+                                               d.py_rhs(x["e"], host, isinstance(a0.ty, int) and a0.ty == x["e"].get("w"), False)))
             else:
                 out.append("%sif %s:" % (ind, d.py_expr(x["c"], host)))
                 out += d.py_stmts(x["th"], host, op, ind + "  ") or [ind + "  pass"]
@@ -401,8 +434,12 @@ def struct_defs():
     for name, fields in STRUCTS.items():
         L.append("@bitstruct")
         L.append("class %s:" % name)
-        for f, t in fields:
-            L.append("  %s: %s" % (f, ("Bits%d" % t) if isinstance(t, int) else t))
+        if name in STRUCT_DECL:
+            for f, t in STRUCT_DECL[name]:
+                L.append("  %s: %s" % (f, t))
+        else:
+            for f, t in fields:
+                L.append("  %s: %s" % (f, ("Bits%d" % t) if isinstance(t, int) else t))
         L.append("")
     return "\n".join(L)
 
